@@ -35,8 +35,10 @@ const char *probe_names[] = {"object_destroyed_by_worker_thread", "object_destro
                              "creator_released_while_threads_run", "last_reference_dropped_by_assignment", nullptr};
 const char *no_faults[] = {nullptr};
 
+int barriers_arrived;
 void reset()
 {
+  barriers_arrived = 0;
   memset(&plan, 0, sizeof plan);
   memset(&m, 0, sizeof m);
   for (int t = 0; t <= C08_MAXTHREADS; t++) {
@@ -86,6 +88,9 @@ void do_plan(int tier)
     plan.seq2[i] = gen_op(true, plan.nobj);
   for (int i = 0; i < plan.nobj; i++)
     plan.release_creator_during[i] = plan.nthreads ? (int)sim_plan(2) : 0;
+  for (int t = 0; t < plan.nthreads; t++)
+    plan.barrier_at[t] = (int)sim_plan((uint32_t)plan.nops[t] + 1);
+  plan.t0_drops_during = plan.nthreads ? (int)sim_plan(2) : 0;
 }
 
 int model_count(int obj)
@@ -136,8 +141,8 @@ void describe(char *buf, size_t n)
                     "osn"[plan.ops[t][i].src_kind], plan.ops[t][i].src % C08_SLOTS);
     k += snprintf(buf + k, n - k, "]");
   }
-  k += snprintf(buf + k, n - k, "], \"thread0_after\": %d, \"creator_released_during\": [%d,%d,%d]}", plan.nseq2,
-                plan.release_creator_during[0], plan.release_creator_during[1], plan.release_creator_during[2]);
+  k += snprintf(buf + k, n - k, "], \"thread0_after\": %d, \"creator_released_during\": [%d,%d,%d], \"thread0_drops_its_handles_during\": %d}", plan.nseq2,
+                plan.release_creator_during[0], plan.release_creator_during[1], plan.release_creator_during[2], plan.t0_drops_during);
 }
 
 const SimScenario scen = {"c08", "C08", LANE_DEBUG, reset, do_plan, c08_run, check, stuck, describe, no_faults, probe_names, 0};
@@ -154,6 +159,17 @@ void c08_phase(int ph)
 int c08_model_slot(int tid, int slot) { return m.slots[tid][slot].obj; }
 int c08_obj_alive(int obj) { return m.created[obj] && !m.destroyed[obj]; }
 int c08_payload_owner(int obj) { return (m.phase == 2 && plan.nthreads) ? 1 + obj % plan.nthreads : 0; }
+void c08_barrier_arrive(int tid)
+{
+  sim_event(890, (uint64_t)tid, 0);
+  barriers_arrived++;
+}
+void c08_wait_barriers(int n)
+{
+  unsigned long long bound = sim_steps() + 200000;
+  while (barriers_arrived < n && sim_steps() < bound)
+    sim_yield();
+}
 
 void c08_obj_created(int obj)
 {
